@@ -116,6 +116,10 @@ pub fn generate(focus: Focus, seed: u64, run: u64, _tier: Tier, st: &mut Stats) 
             let mut bytes = rf.bytes(n);
             if storage && n >= 4 && rf.bool() {
                 bytes[..4].copy_from_slice(b"DLT\x01");
+            } else if rf.chance(1, 6) {
+                let lit = crate::dict::blob(&mut rf);
+                let k = lit.len().min(n);
+                bytes[..k].copy_from_slice(&lit[..k]);
             }
             st.inc("medium_soup");
             medium = Medium { bytes, aligned: false, notes: vec!["arbitrary bytes".into()], ..Default::default() };
